@@ -57,6 +57,22 @@ def queries(backend):
             out.append((f"obj-sum:{sn}", f"ds.Select(lambda e: {A}.Select(lambda j: {agg}).Sum())"))
             out.append((f"obj-tuple:{sn}", f"ds.SelectMany(lambda e: {A}).Select(lambda j: (j.pt(), {agg}))"))
             out.append((f"obj-nested-agg:{sn}", f"ds.Select(lambda e: {A}.Select(lambda j: {agg}).Aggregate(0, lambda a2, w: a2 + w))"))
+    # ---- Count (the only aggregate that does not look at the element) over a sequence whose elements are sequences
+    inner = ["j.tags().Select(lambda t: t * 2)", "j.parts().Where(lambda p: p.pt() > 1)", "j.parts().Select(lambda p: p.pt())", "j.tags().Where(lambda t: t > 0.5)",
+             f"{B}.Select(lambda k: k.pt() + j.pt())", "j.parts().SelectMany(lambda p: p.tags())", "Range(0, j.nTrk())"]
+    for i_ in inner:
+        for outer in (A, f"{A}.Where(lambda j: j.pt() > 1)"):
+            s2 = f"{outer}.Select(lambda j: {i_})"
+            out.append(("count-2d", f"ds.Select(lambda e: {s2}.Count())"))
+            out.append(("count-2d", f"ds.Select(lambda e: ({s2}.Count(), {A}.Select(lambda j: j.pt())))"))
+            out.append(("count-2d", f"ds.Select(lambda e: {s2}.Count() + 1)"))
+            out.append(("count-2d", f"ds.Select(lambda e: {s2}.Aggregate(0, lambda acc, v: acc + 2))"))
+            out.append(("count-2d", f"ds.Where(lambda e: {s2}.Count() > 1).Select(lambda e: {A}.Count())"))
+    for i_ in ["p.tags().Select(lambda t: t * 2)", "p.parts().Where(lambda r: r.pt() > 1)", "p.tags().Where(lambda t: t > j.eta())"]:
+        s3 = f"j.parts().Select(lambda p: {i_})"
+        out.append(("count-3d", f"ds.Select(lambda e: {A}.Select(lambda j: {s3}.Count()))"))
+        out.append(("count-3d", f"ds.SelectMany(lambda e: {A}).Select(lambda j: {s3}.Count())"))
+        out.append(("count-3d", f"ds.Select(lambda e: {A}.Select(lambda j: {s3}.Count()).Sum())"))
     seen = set()
     res = []
     for ctx, q in out:
